@@ -191,7 +191,7 @@ theorem progress_measure_recv (h : Handle α) (B : Nat) (hB : 0 < B) (sendIdx re
     map and either direction (`fwd = true`: forward, `false`: backward): if the peer `e.rank` has exactly one entry `pe`
     for `q` (symmetric maps), its send list (first list forward / second list backward) is as long as `q`'s receive
     list, and the peer's handle respects the buffer size (variable size: every index to be sent fits; fixed size: one
-    size `1 ≤ f ≤ B` for all indices), then what `q` scatters for this neighbour is exactly `expectedCalls`: the k-th
+    size `1 ≤ f ≤ B` for all indices in the peer's send lists), then what `q` scatters for this neighbour is exactly `expectedCalls`: the k-th
     receive index gets the items the peer gathered for its k-th send index — and the exchange returns.  The trackers
     are the ones `setupInterfaceTrackers` builds (with the `fixedsize` value carried from neighbour to neighbour). -/
 theorem delivery_both_directions (B : Nat) (hB : 0 < B) (fwd : Bool) (ranks : List (RankData α)) (q : Nat)
@@ -199,11 +199,11 @@ theorem delivery_both_directions (B : Nat) (hB : 0 < B) (fwd : Bool) (ranks : Li
     (pe : IfaceEntry) (hpe : pe ∈ pd.imap) (hrank : pe.rank = q) (huniq : ∀ x ∈ pd.imap, x.rank = q → x = pe)
     (hlen : (e.recv fwd).length = (pe.send fwd).length)
     (hvar : pd.handle.fixed = false → ∀ i ∈ pe.send fwd, pd.handle.size i ≤ B)
-    (f : Nat) (hfix : pd.handle.fixed = true → f ≠ 0 ∧ f ≤ B ∧ ∀ i, pd.handle.size i = f) :
+    (f : Nat) (hfix : pd.handle.fixed = true → f ≠ 0 ∧ f ≤ B ∧ ∀ x ∈ pd.imap, ∀ i ∈ x.send fwd, pd.handle.size i = f) :
     ∃ r, receiveFrom true B fwd ranks q e = some r ∧
       r.calls = expectedCalls pd.handle (pe.send fwd) (e.recv fwd) ∧ r.returns = true := by
-  obtain ⟨ts, hfind, hts⟩ := find_peer_trackers pd.handle fwd q f pe (fun hx => (hfix hx).2.2) pd.imap
-    (if pd.handle.fixed then 1 else 0) hpe huniq hrank (fun hx => Or.inl (by simp [hx]))
+  obtain ⟨ts, hfind, hts⟩ := find_peer_trackers pd.handle fwd q f pe pd.imap
+    (if pd.handle.fixed then 1 else 0) (fun hx => (hfix hx).2.2) hpe huniq hrank (fun hx => Or.inl (by simp [hx]))
   simp only [receiveFrom, hpd, setupInterfaceTrackers, hfind]
   by_cases hx : pd.handle.fixed = true
   · obtain ⟨hf0, hfB, hall⟩ := hfix hx
@@ -213,7 +213,7 @@ theorem delivery_both_directions (B : Nat) (hB : 0 < B) (fwd : Bool) (ranks : Li
     have hsz : ∀ i ∈ pe.send fwd, pd.handle.size i = ts.1.fixedSize := by
       intro i hi
       rw [hne (by intro e; rw [e] at hi; simp at hi)]
-      exact hall i
+      exact hall pe hpe i hi
     obtain ⟨h1, h2, _, _⟩ := communicatePairFixed_spec pd.handle B ts.1.fixedSize (pe.send fwd) (e.recv fwd) hlen hfs0
       hfsB hsz
     exact ⟨_, by simp [hx], by rw [h1, callsOf_eq_expected], h2⟩
